@@ -758,7 +758,9 @@ class TypeBlocks(ContainerOperand):
                                 values = full_for_fill(b.dtype,
                                         index_ic.size,
                                         fill_value)
-                                if b.ndim == 1:
+                                if not index_ic.has_common:
+                                    pass # no rows in common: all fill
+                                elif b.ndim == 1:
                                     values[index_ic.iloc_dst] = b[index_ic.iloc_src]
                                 else:
                                     values[index_ic.iloc_dst] = b[index_ic.iloc_src, block_col]
